@@ -98,7 +98,7 @@ static const int vf_prefix[] = { VF_PREFIX };
 static const int vf_prefix[1] = {0};
 #define VF_PREFIX_LEN 0
 #endif
-#define RUN(i) case i: __vf_cur = i; if (!__vf_co_resume()) vf_done[i] = 1; break;
+#define RUN(i) case i: if (vf_started[i]) { __vf_cur = i; if (!__vf_co_resume()) vf_done[i] = 1; } break;   /* the test is implied by enabled(t); it lets symbolic execution skip threads that cannot exist yet */
 #define FOR_T(X) X(0) X(1) X(2) X(3) X(4) X(5)
 #define UNF(j) if (j < VF_NTHR && vf_started[j] && !vf_done[j]) all = 0;
 #define LIV(j) if (j < VF_NTHR && enabled(j, 0)) live = 1;
@@ -149,7 +149,7 @@ int main(void){
   for (int j = 0; j < VF_PRESTART; j++) { vf_started[j] = 1; __vf_co_start(j); }
   vf_run();
   { _Bool all = 1; FOR_T(UNF)
-#ifdef VF_LIVENESS
+#if defined(VF_LIVENESS) && !defined(VF_PREFIX_ONLY)
     __CPROVER_assert(all, "BOUND: schedule length VF_K sufficient for every thread to finish");
 #endif
     if (all) { __CPROVER_assert(0, "REACH: all threads finished"); vf_final(); }
